@@ -33,8 +33,15 @@ def layout_jobs(tier):
         mixed = [[b, U.shift_op(("w", g, L), U.op_end(b))] for b in blocks[::2] for L in (1, 3, 9) for g in (0, 2)]
         mixed += [[("w", 0, L), U.shift_op(b, L + g)] for b in blocks[::2] for L in (1, 3, 9) for g in (0, 2)]
         epochs = U.EPOCHS
+    mixed3 = []
+    for b in blocks[::5]:
+        for L in (1, 3):
+            first = ("w", 0, L)
+            mid = U.shift_op(b, L + 1)
+            mixed3.append([first, mid, U.shift_op(("w", 2, 2), U.op_end(mid))])
+            mixed3.append([first, mid, U.shift_op(("w", 0, 1), U.op_end(mid)), U.shift_op(("w", 1, 2), U.op_end(mid) + 1)])
     hist_all = [(s, "linear") for s in seqs2] + [(s, "full") for s in seqs3] + \
-        [([b], "linear") for b in blocks] + [(m, "full") for m in mixed]
+        [([b], "linear") for b in blocks] + [(m, "full") for m in mixed] + [(m, "full") for m in mixed3]
     # compression / checksum variants share the chunked code path with gapped mode: in the quick
     # tier they get a third of the depth-2 sequences plus all block layouts
     hist_light = [(s, "linear") for s in seqs2[::3]] + [([b], "linear") for b in blocks]
